@@ -1153,12 +1153,49 @@ theorem seq_step_no_clause (c : B64) (hc : c.Lawful) {w : World} {m : SeqMon} (h
   | list k =>
     simp only [stepW]
     split
-    · simp only [seqMonStep]; split <;> rfl
+    · simp only [seqMonStep]; split <;> first | rfl | simp [staleHit]
     · split
+      · rename_i pg hf
+        split
+        · simp only [seqMonStep]
+          split
+          · rfl
+          · exact staleHit_cached h hf true
+        · simp only [putPage, seqMonStep]; split <;> first | rfl | simp [staleHit]
+      · simp only [putPage, seqMonStep]; split <;> first | rfl | simp [staleHit]
+  | listSend k =>
+    have hsent : (seqMonStep c m (.listSend k) (sendList w k).2).2 = none := by
+      simp only [sendList, seqMonStep]
+    simp only [stepW]
+    cases hw : w.pend with
+    | some q => rfl
+    | none =>
+      simp only []
+      split
+      · exact hsent
       · split
-        · simp only [seqMonStep]; split <;> rfl
-        · simp only [putPage, seqMonStep]; split <;> rfl
-      · simp only [putPage, seqMonStep]; split <;> rfl
+        · rename_i pg hf
+          split
+          · simp only [seqMonStep]
+            exact staleHit_cached h hf true
+          · exact hsent
+        · exact hsent
+  | listRecv =>
+    simp only [stepW]
+    cases hw : w.pend with
+    | none => rfl
+    | some p =>
+      simp only [recvList, seqMonStep]
+      cases m.pend with
+      | none => rfl
+      | some x =>
+        obtain ⟨ch, nt⟩ := x
+        simp only []
+        split
+        · rfl
+        · split
+          · rfl
+          · split <;> rfl
   | look n =>
     simp only [stepW, seqMonStep]
     split
